@@ -11,6 +11,7 @@ EXPLANATION = (
     "(circumscribed); ellipse: rx/ry from width/height, SQRT_2 exactly on the circumscribing side); intersection() folds "
     "with a carried accumulator; (3) an unknown or box-less reference is an error. Undecided: enclosure inequalities, margin "
     "arithmetic and percent bases (numeric)."
+    " A17: position_from_bbox (7 shape x mode cases), inscribed_bbox, margin value order, expand/shrink_trbl_length with their percent bases, combine/intersect agree as terms with the reference algebra."
 )
 TRUSTED = ["f32::min/max and SQRT_2 semantics"]
 ASSUMPTIONS = []
